@@ -179,6 +179,7 @@ type c20BlockDesc struct {
 	EBE    []string    `json:"ebe"`
 	ValUpd []c20ValUpd `json:"valupd"`
 	ParUpd []c20ParUpd `json:"parupd"`
+	Ev     []c20Ev     `json:"ev"`
 }
 
 type c20Desc struct {
@@ -195,7 +196,7 @@ type c20ABlock struct {
 	Header     c20Header   `json:"header"`
 	Bid        c20Bid      `json:"bid"`
 	Txs        []string    `json:"txs"`
-	Evidence   []string    `json:"evidence"`
+	Evidence   []c20Ev     `json:"evidence"`
 	LastCommit c20Commit   `json:"last_commit"`
 	Commit     c20Commit   `json:"commit"`
 	Vals       []c20Val    `json:"vals"`
@@ -525,14 +526,6 @@ func c20AbsParams(p tmproto.ConsensusParams) c20Params {
 		EvMaxBytes: p.Evidence.MaxBytes, PkTypes: append([]string{}, p.Validator.PubKeyTypes...), AppVersion: int64(p.Version.AppVersion)}
 }
 
-func (nm *c20Names) absEvidence(evs types.EvidenceList) []string {
-	out := []string{}
-	for _, e := range evs {
-		out = append(out, nm.id("ev", e.Hash()))
-	}
-	return out
-}
-
 func (nm *c20Names) absValUpd(us []abci.ValidatorUpdate) []c20ValUpd {
 	out := []c20ValUpd{}
 	for _, u := range us {
@@ -851,7 +844,12 @@ func c20BuildChain(desc *c20Desc) *c20Chain {
 		for _, n := range desc.Blocks[h-1].Txs {
 			txs = append(txs, types.Tx("tx:"+n))
 		}
-		block, parts := state.MakeBlock(h, txs, lastCommit, nil, state.Validators.Validators[0].Address)
+		var evidence []types.Evidence
+		for _, e := range desc.Blocks[h-1].Ev {
+			evidence = append(evidence, ch.makeEvidence(h, e))
+		}
+		nm.regEvidence(evidence)
+		block, parts := state.MakeBlock(h, txs, lastCommit, evidence, state.Validators.Validators[0].Address)
 		blockID := types.BlockID{Hash: block.Hash(), PartSetHeader: parts.Header()}
 		vals := state.Validators.Copy()
 		newState, _, err := exec.ApplyBlock(state, blockID, block)
@@ -936,15 +934,6 @@ func (nm *c20Names) regSigs(sigs []types.CommitSig) {
 		bz, err := s.ToProto().Marshal()
 		c20Must(err)
 		leaves = append(leaves, bz)
-	}
-	nm.regTree(terms, leaves)
-}
-
-func (nm *c20Names) regEvidence(evs types.EvidenceList) {
-	terms, leaves := []string{}, [][]byte{}
-	for _, e := range evs {
-		terms = append(terms, c20EvTerm(nm.id("ev", e.Hash())))
-		leaves = append(leaves, e.Bytes())
 	}
 	nm.regTree(terms, leaves)
 }
